@@ -1339,6 +1339,30 @@ def nextend(src, log):
     return pat.sub(rep, src)
 
 
+def nposition(src, log):
+    """`E.iter().position(|&X| PRED)` (E a field path, PRED without a `)` at top level) -> the forward index loop it denotes
+         { let mut __vx_pK: Option<usize> = None; let mut __vx_jK: usize = 0; while __vx_jK < E.len() { let X = E[__vx_jK]; if PRED { __vx_pK = Some(__vx_jK); break; } __vx_jK += 1; } __vx_pK }
+    (definition of `position`: the index of the first element that satisfies the predicate; `position` is a provided
+    iterator method without a vstd specification)."""
+    pat = re.compile(r"(?<![\w.])((?:\w+\.)+\w+|\w+)\.iter\(\)\.position\(\|&(\w+)\| ([^()|]+?)\)")
+    k = [0]
+    def rep(m):
+        k[0] += 1
+        n = k[0]
+        log.append("nposition E.iter().position(|&x| p) -> forward index loop with early exit")
+        e, x, pred = m.group(1), m.group(2), m.group(3).strip()
+        return (f"{{ let mut __vx_p{n}: Option<usize> = None; let mut __vx_j{n}: usize = 0; while __vx_j{n} < {e}.len() "
+                f"{{ let {x} = {e}[__vx_j{n}]; if {pred} {{ __vx_p{n} = Some(__vx_j{n}); break; }} __vx_j{n} += 1; }} __vx_p{n} }}")
+    src = pat.sub(rep, src)
+    # the same closure after rule N1 (`|&t| p` -> `|__vx_a1| { let t = *__vx_a1; p }`)
+    pat2 = re.compile(r"(?<![\w.])((?:\w+\.)+\w+|\w+)\.iter\(\)\.position\(\|(__vx_a\d+)\| \{ let (\w+) = \*\2; ([^(){}|]+?) \}\)")
+    def rep2(m):
+        class M:  # adapt to rep's group layout
+            def group(self, i): return {1: m.group(1), 2: m.group(3), 3: m.group(4)}[i]
+        return rep(M())
+    return pat2.sub(rep2, src)
+
+
 def ncopyrange(src, log):
     """`PLACE[A..B].copy_from_slice(&SRC);` -> `vx_copy_range(&mut PLACE, A, B, &SRC);` (std: copy SRC over PLACE[A..B]; panics
     unless the range lies inside PLACE and SRC has B - A elements -- obligations of the call).  Generic in A, B, SRC."""
@@ -1790,6 +1814,8 @@ def normalise(src, rules, log, ctx=None):
             src = nblockpush(src, log)
         elif r == "nconcat2":
             src = nconcat2(src, log)
+        elif r == "nposition":
+            src = nposition(src, log)
         elif r == "nextend":
             src = nextend(src, log)
         elif r == "nresize":
